@@ -262,6 +262,53 @@ func (c wcontent) owner(b uint64) (string, bool) {
 	return "", false
 }
 
+// enumLimit: totals up to this many blocks are checked block by block, larger ones at the interval boundaries only.
+const enumLimit = 1 << 12
+
+// boundaryBlocks: the first and the last block of every key's cumulative-weight interval, ascending (block 1 and block
+// total among them). Assumes total < 2^64 (the no-overflow side condition of C09).
+func (c wcontent) boundaryBlocks() []uint64 {
+	var bs []uint64
+	var cum uint64
+	for _, k := range c.sortedKeys() {
+		w := c[k].w
+		if w == 0 {
+			continue
+		}
+		bs = append(bs, cum+1)
+		if w > 1 {
+			bs = append(bs, cum+w)
+		}
+		cum += w
+	}
+	return bs
+}
+
+// blocksToCheck: every block for small totals and key sets, the interval boundaries otherwise
+func (c wcontent) blocksToCheck() []uint64 {
+	total := c.total()
+	if total > enumLimit {
+		return c.boundaryBlocks()
+	}
+	if len(c) > 32 {
+		// many keys (the comb-shaped tries with paths of maximal depth): the first block of every key
+		var bs []uint64
+		var cum uint64
+		for _, k := range c.sortedKeys() {
+			if c[k].w > 0 {
+				bs = append(bs, cum+1)
+			}
+			cum += c[k].w
+		}
+		return append(bs, total)
+	}
+	bs := make([]uint64, 0, total)
+	for b := uint64(1); b <= total; b++ {
+		bs = append(bs, b)
+	}
+	return bs
+}
+
 // hasEqualPair reports whether two different keys carry byte-equal (value, weight): their value nodes (and, with an
 // equal key suffix, their short nodes) have the same hash and share one storage entry (matcher of finding C11-F2).
 func (c wcontent) hasEqualPair() bool {
@@ -380,8 +427,9 @@ func openTrie(st storage.StorageAdapter, root []byte, weight uint64) *wmpt.Weigh
 	return wmpt.New(wmpt.NewHashNode(append([]byte(nil), root...), weight), st)
 }
 
-// checkReopen opens (root, weight) on st and compares total weight, the owner of every block, every value and the
-// verification of every block proof with the oracle content c. Returns the list of discrepancies.
+// checkReopen opens (root, weight) on st and compares total weight, the owner of every block (totals beyond enumLimit:
+// of the first and last block of every interval), every value and the verification of every block proof with the
+// oracle content c. Returns the list of discrepancies.
 func checkReopen(what string, st storage.StorageAdapter, root []byte, weight uint64, c wcontent) (fails []string) {
 	defer func() {
 		if r := recover(); r != nil {
@@ -406,7 +454,7 @@ func checkReopen(what string, st storage.StorageAdapter, root []byte, weight uin
 	if t.Weight() != weight {
 		fails = append(fails, fmt.Sprintf("%s: reopened weight %d, want %d", what, t.Weight(), weight))
 	}
-	for b := uint64(1); b <= weight; b++ {
+	for _, b := range c.blocksToCheck() {
 		wantKey, _ := c.owner(b)
 		key, proof, err := t.GetBlockProof(b)
 		if err != nil {
@@ -465,6 +513,31 @@ func wkeyPool(r *rand.Rand, n int) []string {
 		if !dup {
 			pool = append(pool, string(k))
 		}
+	}
+	return pool
+}
+
+// wcombPool: key 0 plus, for i = 0..depth (depth <= 63), a key that shares exactly the first i nibbles with key 0: key 0
+// has a sibling at every nibble depth 0..depth, so its path holds a branch at every depth — the longest paths a proof or
+// an export can have (depth 63: 64 branches + the value node = 65 elements; depth 62: 63 branches + a one-nibble short
+// node + the value node). pool[0] = key 0, pool[1+i] = the sibling at depth i.
+func wcombPool(r *rand.Rand, depth int) []string {
+	k0 := make([]byte, 32)
+	r.Read(k0)
+	n0 := nibblesOf(string(k0))
+	pool := []string{string(k0)}
+	for i := 0; i <= depth && i < 64; i++ {
+		nk := make([]byte, 64)
+		copy(nk, n0[:i])
+		nk[i] = (n0[i] + 1 + byte(r.Intn(15))) % 16
+		for j := i + 1; j < 64; j++ {
+			nk[j] = byte(r.Intn(16))
+		}
+		k := make([]byte, 32)
+		for j := range k {
+			k[j] = nk[2*j]<<4 | nk[2*j+1]
+		}
+		pool = append(pool, string(k))
 	}
 	return pool
 }
